@@ -1575,7 +1575,7 @@ class QueryBuilder(Selectable, Term):  # type:ignore[misc]
             for_update = " FOR UPDATE"
             if self._for_update_of:
                 for_update += (
-                    f' OF {", ".join([Table(item).get_sql(ctx) for item in self._for_update_of])}'
+                    f' OF {", ".join([Table(item).get_sql(ctx) for item in sorted(self._for_update_of)])}'
                 )
             if self._for_update_nowait:
                 for_update += " NOWAIT"
